@@ -2,6 +2,7 @@
 
 use crate::common::{Case, Tally, be_dec, be_inc, err_class, gen_keyset, k16, key_class, size40, viol};
 use cascette_crypto::{ContentKey, EncodingKey};
+use cascette_formats::CascFormat;
 use cascette_formats::encoding::{CKeyEntryData, EKeyEntryData, EncodingBuilder, EncodingFile};
 use serde_json::json;
 use std::collections::BTreeMap;
@@ -169,6 +170,21 @@ pub fn run(ctx: &Ctx, case: &Case, t: &mut Tally) {
         }
     };
 
+    let v = verify(ctx, case, t, &mut rng, &parsed, &model, "", zero_ekey_espec0, &size_info);
+    if v.ckeys && v.ekeys && case.idx % EXT_EVERY == 0 {
+        extend(ctx, case, t, &mut rng, &parsed, model, &specs);
+    }
+}
+
+struct Verified {
+    ckeys: bool,
+    ekeys: bool,
+}
+
+/// Level 1 (linear scan == model) and level 2 (every lookup flavour vs model) on one parsed table. `ph` is the
+/// path that produced the table: "" for builder -> build -> parse, otherwise e.g. "after-edit|".
+#[allow(clippy::too_many_arguments)]
+fn verify(ctx: &Ctx, case: &Case, t: &mut Tally, rng: &mut Rng, parsed: &EncodingFile, model: &Model, ph: &str, zero_ekey_espec0: bool, size_info: &serde_json::Value) -> Verified {
     // ---- level 1: linear scan of the parsed entries == what was inserted
     let mut scan_c: BTreeMap<K, Vec<(u64, Vec<K>)>> = BTreeMap::new();
     for page in &parsed.ckey_pages {
@@ -187,20 +203,21 @@ pub fn run(ctx: &Ctx, case: &Case, t: &mut Tally) {
         viol(
             ctx,
             case,
-            &format!("C03|encoding|built-output-misparsed|ckey-table|{cause}"),
+            &format!("C03|encoding|{ph}built-output-misparsed|ckey-table|{cause}"),
             "CKey entries of the parsed encoding table differ from what was inserted",
             json!({"key": hex::encode(key), "inserted": model.c.get(&key).map(|(s, e)| json!({"size": s, "ekeys": e.iter().map(hex::encode).collect::<Vec<_>>()})), "parsed": scan_c.get(&key).map(|v| v.iter().map(|(s, e)| json!({"size": s, "ekeys": e.iter().map(hex::encode).collect::<Vec<_>>()})).collect::<Vec<_>>()), "sizes": size_info}),
         );
-        return;
+        return Verified { ckeys: false, ekeys: false };
     }
     let mut ekey_table_ok = true;
     let diff_e = diff_maps(&model.e, &scan_e, |m, s| s.len() == 1 && s[0].0.as_deref() == Some(m.0.as_str()) && s[0].1 == m.1);
     if let Some((cause, key)) = diff_e {
-        let cause = if zero_ekey_espec0 { "all-00-ekey+espec-index-0".to_string() } else { cause };
+        // the listed format ambiguity keeps one signature whatever path produced the table
+        let sig = if zero_ekey_espec0 { "C03|encoding|built-output-misparsed|ekey-table|all-00-ekey+espec-index-0".to_string() } else { format!("C03|encoding|{ph}built-output-misparsed|ekey-table|{cause}") };
         viol(
             ctx,
             case,
-            &format!("C03|encoding|built-output-misparsed|ekey-table|{cause}"),
+            &sig,
             "EKey entries of the parsed encoding table differ from what was inserted",
             json!({"key": hex::encode(key), "inserted": model.e.get(&key).map(|(s, z)| json!({"espec": s, "size": z})), "parsed": scan_e.get(&key).map(|v| v.iter().map(|(s, z)| json!({"espec": s, "size": z})).collect::<Vec<_>>()), "sizes": size_info}),
         );
@@ -209,7 +226,7 @@ pub fn run(ctx: &Ctx, case: &Case, t: &mut Tally) {
     }
 
     // ---- level 2: every lookup flavour on inserted keys and negative probes
-    let c_probes = probes(&mut rng, model.c.keys().copied().collect(), model.e.keys().copied().take(16).collect());
+    let c_probes = probes(rng, model.c.keys().copied().collect(), model.e.keys().copied().take(16).collect());
     let mut lookups = 0u64;
     let mut singles: Vec<Option<K>> = Vec::with_capacity(c_probes.len());
     let mut singles_all: Vec<Vec<K>> = Vec::with_capacity(c_probes.len());
@@ -221,7 +238,7 @@ pub fn run(ctx: &Ctx, case: &Case, t: &mut Tally) {
         lookups += 1;
         if got != exp1 {
             let rel = relation(exp1.is_some(), got.is_some());
-            viol(ctx, case, &format!("C03|encoding|find_encoding|{rel}|key={}", key_class(p)), "find_encoding disagrees with the inserted mapping and the linear scan", json!({"key": hex::encode(p), "expected": exp1.map(hex::encode), "got": got.map(hex::encode), "sizes": size_info}));
+            viol(ctx, case, &format!("C03|encoding|{ph}find_encoding|{rel}|key={}", key_class(p)), "find_encoding disagrees with the inserted mapping and the linear scan", json!({"key": hex::encode(p), "expected": exp1.map(hex::encode), "got": got.map(hex::encode), "sizes": size_info}));
         }
         let got_all: Vec<K> = parsed.find_all_encodings(&ck).iter().map(|e| *e.as_bytes()).collect();
         lookups += 1;
@@ -231,7 +248,7 @@ pub fn run(ctx: &Ctx, case: &Case, t: &mut Tally) {
         b.sort_unstable();
         if a != b {
             let rel = relation(!b.is_empty(), !a.is_empty());
-            viol(ctx, case, &format!("C03|encoding|find_all_encodings|{rel}|key={}", key_class(p)), "find_all_encodings disagrees with the inserted mapping and the linear scan", json!({"key": hex::encode(p), "expected": b.iter().map(hex::encode).collect::<Vec<_>>(), "got": a.iter().map(hex::encode).collect::<Vec<_>>(), "sizes": size_info}));
+            viol(ctx, case, &format!("C03|encoding|{ph}find_all_encodings|{rel}|key={}", key_class(p)), "find_all_encodings disagrees with the inserted mapping and the linear scan", json!({"key": hex::encode(p), "expected": b.iter().map(hex::encode).collect::<Vec<_>>(), "got": a.iter().map(hex::encode).collect::<Vec<_>>(), "sizes": size_info}));
         }
         singles.push(got);
         singles_all.push(got_all);
@@ -241,19 +258,34 @@ pub fn run(ctx: &Ctx, case: &Case, t: &mut Tally) {
     lookups += batch_keys.len() as u64;
     if b1 != singles {
         let i = b1.iter().zip(&singles).position(|(a, b)| a != b).unwrap_or(b1.len().min(singles.len()));
-        viol(ctx, case, "C03|encoding|batch_find_encodings|batch!=single", "batch_find_encodings differs element-wise from find_encoding", json!({"index": i, "key": c_probes.get(i).map(hex::encode), "batch": b1.get(i).and_then(|o| o.map(hex::encode)), "single": singles.get(i).and_then(|o| o.map(hex::encode)), "batch_len": b1.len(), "single_len": singles.len(), "sizes": size_info}));
+        viol(ctx, case, &format!("C03|encoding|{ph}batch_find_encodings|batch!=single"), "batch_find_encodings differs element-wise from find_encoding", json!({"index": i, "key": c_probes.get(i).map(hex::encode), "batch": b1.get(i).and_then(|o| o.map(hex::encode)), "single": singles.get(i).and_then(|o| o.map(hex::encode)), "batch_len": b1.len(), "single_len": singles.len(), "sizes": size_info}));
     }
     let b2: Vec<Vec<K>> = parsed.batch_find_all_encodings(&batch_keys).iter().map(|v| v.iter().map(|e| *e.as_bytes()).collect()).collect();
     lookups += batch_keys.len() as u64;
     if b2 != singles_all {
         let i = b2.iter().zip(&singles_all).position(|(a, b)| a != b).unwrap_or(0);
-        viol(ctx, case, "C03|encoding|batch_find_all_encodings|batch!=single", "batch_find_all_encodings differs element-wise from find_all_encodings", json!({"index": i, "key": c_probes.get(i).map(hex::encode), "sizes": size_info}));
+        viol(ctx, case, &format!("C03|encoding|{ph}batch_find_all_encodings|batch!=single"), "batch_find_all_encodings differs element-wise from find_all_encodings", json!({"index": i, "key": c_probes.get(i).map(hex::encode), "sizes": size_info}));
     }
     if batch_keys.is_empty() {
         t.o("encoding.empty_batches", 1);
     }
+    // a batch that ends before the last page (only the smallest keys) and the empty batch
+    let mut low: Vec<K> = model.c.keys().copied().take(3).collect();
+    low.push([0u8; 16]);
+    let low_keys: Vec<ContentKey> = low.iter().map(|k| ContentKey::from_bytes(*k)).collect();
+    let low_single: Vec<Option<K>> = low_keys.iter().map(|k| parsed.find_encoding(k).map(|e| *e.as_bytes())).collect();
+    let low_batch: Vec<Option<K>> = parsed.batch_find_encodings(&low_keys).iter().map(|o| o.map(|e| *e.as_bytes())).collect();
+    let low_all_single: Vec<Vec<K>> = low_keys.iter().map(|k| parsed.find_all_encodings(k).iter().map(|e| *e.as_bytes()).collect()).collect();
+    let low_all_batch: Vec<Vec<K>> = parsed.batch_find_all_encodings(&low_keys).iter().map(|v| v.iter().map(|e| *e.as_bytes()).collect()).collect();
+    lookups += 4 * low_keys.len() as u64;
+    if low_batch != low_single || !parsed.batch_find_encodings(&[]).is_empty() {
+        viol(ctx, case, &format!("C03|encoding|{ph}batch_find_encodings|batch!=single"), "batch_find_encodings differs element-wise from find_encoding", json!({"batch": "smallest keys only / empty", "keys": low.iter().map(hex::encode).collect::<Vec<_>>(), "sizes": size_info}));
+    }
+    if low_all_batch != low_all_single || !parsed.batch_find_all_encodings(&[]).is_empty() {
+        viol(ctx, case, &format!("C03|encoding|{ph}batch_find_all_encodings|batch!=single"), "batch_find_all_encodings differs element-wise from find_all_encodings", json!({"batch": "smallest keys only / empty", "keys": low.iter().map(hex::encode).collect::<Vec<_>>(), "sizes": size_info}));
+    }
 
-    let e_probes = if ekey_table_ok { probes(&mut rng, model.e.keys().copied().collect(), model.c.keys().copied().take(16).collect()) } else { Vec::new() };
+    let e_probes = if ekey_table_ok { probes(rng, model.e.keys().copied().collect(), model.c.keys().copied().take(16).collect()) } else { Vec::new() };
     if !ekey_table_ok {
         t.o("encoding.ekey_lookups_skipped_after_misparse", 1);
     }
@@ -265,22 +297,355 @@ pub fn run(ctx: &Ctx, case: &Case, t: &mut Tally) {
         lookups += 1;
         if got != expect {
             let rel = relation(expect.is_some(), got.is_some());
-            viol(ctx, case, &format!("C03|encoding|find_espec|{rel}|key={}", key_class(p)), "find_espec disagrees with the inserted mapping and the linear scan", json!({"key": hex::encode(p), "expected": expect, "got": got, "sizes": size_info}));
+            viol(ctx, case, &format!("C03|encoding|{ph}find_espec|{rel}|key={}", key_class(p)), "find_espec disagrees with the inserted mapping and the linear scan", json!({"key": hex::encode(p), "expected": expect, "got": got, "sizes": size_info}));
         }
         e_singles.push(got);
     }
     let e_batch: Vec<EncodingKey> = e_probes.iter().map(|p| EncodingKey::from_bytes(*p)).collect();
     let b3: Vec<Option<String>> = parsed.batch_find_especs(&e_batch).iter().map(|o| o.map(str::to_string)).collect();
     lookups += e_batch.len() as u64;
+    if ekey_table_ok {
+        let low_e: Vec<EncodingKey> = model.e.keys().copied().take(3).map(EncodingKey::from_bytes).collect();
+        let s1: Vec<Option<String>> = low_e.iter().map(|k| parsed.find_espec(k).map(str::to_string)).collect();
+        let b1: Vec<Option<String>> = parsed.batch_find_especs(&low_e).iter().map(|o| o.map(str::to_string)).collect();
+        lookups += 2 * low_e.len() as u64;
+        if s1 != b1 || !parsed.batch_find_especs(&[]).is_empty() {
+            viol(ctx, case, &format!("C03|encoding|{ph}batch_find_especs|batch!=single"), "batch_find_especs differs element-wise from find_espec", json!({"batch": "smallest keys only / empty", "sizes": size_info}));
+        }
+    }
     if b3 != e_singles {
         let i = b3.iter().zip(&e_singles).position(|(a, b)| a != b).unwrap_or(0);
-        viol(ctx, case, "C03|encoding|batch_find_especs|batch!=single", "batch_find_especs differs element-wise from find_espec", json!({"index": i, "key": e_probes.get(i).map(hex::encode), "batch": b3.get(i), "single": e_singles.get(i), "sizes": size_info}));
+        viol(ctx, case, &format!("C03|encoding|{ph}batch_find_especs|batch!=single"), "batch_find_especs differs element-wise from find_espec", json!({"index": i, "key": e_probes.get(i).map(hex::encode), "batch": b3.get(i), "single": e_singles.get(i), "sizes": size_info}));
     }
     t.o("encoding.lookups", lookups);
-    t.o("encoding.ckeys_inserted", model.c.len() as u64);
-    t.o("encoding.ekeys_inserted", model.e.len() as u64);
-    if ctx.want_sample() && pages.0 >= 2 {
+    if ph.is_empty() {
+        t.o("encoding.ckeys_inserted", model.c.len() as u64);
+        t.o("encoding.ekeys_inserted", model.e.len() as u64);
+    } else {
+        t.o(&format!("encoding.{}lookups", ph.replace('|', ".")), lookups);
+    }
+    if ph.is_empty() && ctx.want_sample() && parsed.ckey_pages.len() >= 2 {
         ctx.sample(json!({"family":"encoding","params":case.params,"sizes":size_info,"probes":c_probes.len() + e_probes.len()}));
+    }
+    Verified { ckeys: true, ekeys: ekey_table_ok }
+}
+
+/// Every `EXT_EVERY`-th structure also goes through the editing operations and the alternative entry points.
+const EXT_EVERY: u64 = 3;
+
+fn new_ckey_value(rng: &mut Rng) -> (u64, Vec<K>) {
+    let k = if rng.chance(1, 10) { rng.urange(5, 12) } else { rng.urange(1, 4) };
+    (size40(rng), (0..k).map(|_| rng.array::<16>()).collect())
+}
+
+fn ckey_data(key: &K, v: &(u64, Vec<K>)) -> CKeyEntryData {
+    CKeyEntryData { content_key: ContentKey::from_bytes(*key), file_size: v.0, encoding_keys: v.1.iter().copied().map(EncodingKey::from_bytes).collect() }
+}
+
+fn ekey_data(key: &K, v: &(String, u64)) -> EKeyEntryData {
+    EKeyEntryData { encoding_key: EncodingKey::from_bytes(*key), espec: v.0.clone(), file_size: v.1 }
+}
+
+/// A key next to / far from the present ones that is not in `present`.
+fn fresh_key<V>(rng: &mut Rng, present: &BTreeMap<K, V>) -> K {
+    for _ in 0..64 {
+        let cand: K = match rng.below(4) {
+            0 | 1 if !present.is_empty() => {
+                let keys: Vec<&K> = present.keys().collect();
+                let base = **rng.pick(&keys);
+                let nb = if rng.bool() { be_inc(&base) } else { be_dec(&base) };
+                nb.map_or_else(|| rng.array::<16>(), |v| k16(&v))
+            }
+            2 => {
+                let mut k = [0u8; 16];
+                k[15] = rng.urange(1, 255) as u8;
+                k
+            }
+            _ => rng.array::<16>(),
+        };
+        if !present.contains_key(&cand) {
+            return cand;
+        }
+    }
+    rng.array::<16>()
+}
+
+/// Coverage-driven extension: `EncodingBuilder::from_encoding_file` + editing operations (`remove_*_entry`,
+/// re-insertion with a new value, additions, `clear`, `has_*_entry`, `*_count`) followed by build -> serialise ->
+/// parse through one of the three entry-point pairs (`build`/`parse`, `build_blte`/`parse_blte`, `CascFormat`), then
+/// the same two verification levels against the edited model: removed keys must be gone, replaced keys must resolve
+/// to the new value, untouched keys must be unchanged.
+#[allow(clippy::too_many_lines)]
+fn extend(ctx: &Ctx, case: &Case, t: &mut Tally, rng: &mut Rng, parsed: &EncodingFile, mut model: Model, specs: &[&str]) {
+    let sel = case.idx / EXT_EVERY;
+    let path = sel % 3;
+    let start = (sel / 3) % 4; // 0,1: from_encoding_file; 2: from_encoding_file + clear + re-add; 3: default() + re-add
+    let ph = match path {
+        0 => "after-edit|",
+        1 => "after-edit+blte|",
+        _ => "after-edit+CascFormat|",
+    };
+    let bviol = |api: &str, rel: &str, witness: serde_json::Value| {
+        viol(ctx, case, &format!("C03|encoding|EncodingBuilder::{api}|{rel}"), "an editing operation of EncodingBuilder disagrees with the model of what the builder holds", witness);
+    };
+    // builder order of the EKey entries (decides which ESpec string gets table index 0)
+    let mut order: Vec<K>;
+    let mut b = EncodingBuilder::from_encoding_file(parsed);
+    t.o("encoding.edit.from_encoding_file", 1);
+    if b.ckey_count() != model.c.len() || b.ekey_count() != model.e.len() {
+        bviol("from_encoding_file", "entry-count!=parsed-table", json!({"ckey_count": b.ckey_count(), "ekey_count": b.ekey_count(), "expected": [model.c.len(), model.e.len()]}));
+        return;
+    }
+    order = model.e.keys().copied().collect();
+    if start >= 2 {
+        if start == 2 {
+            b.clear();
+            t.o("encoding.edit.clear", 1);
+            let leftover = model.c.keys().take(8).any(|k| b.has_ckey_entry(&ContentKey::from_bytes(*k))) || model.e.keys().take(8).any(|k| b.has_ekey_entry(&EncodingKey::from_bytes(*k)));
+            if b.ckey_count() != 0 || b.ekey_count() != 0 || leftover {
+                bviol("clear", "entries-left", json!({"ckey_count": b.ckey_count(), "ekey_count": b.ekey_count()}));
+                return;
+            }
+        } else {
+            b = EncodingBuilder::default().with_page_sizes(parsed.header.ckey_page_size_kb, parsed.header.ekey_page_size_kb);
+            t.o("encoding.edit.default", 1);
+        }
+        let mut ck: Vec<K> = model.c.keys().copied().collect();
+        rng.shuffle(&mut ck);
+        for k in &ck {
+            b.add_ckey_entry(ckey_data(k, &model.c[k]));
+        }
+        rng.shuffle(&mut order);
+        for k in &order {
+            b.add_ekey_entry(ekey_data(k, &model.e[k]));
+        }
+    }
+    // presence queries before the edits
+    let mut n_q = 0u64;
+    let c_keys: Vec<K> = model.c.keys().copied().collect();
+    let e_keys: Vec<K> = model.e.keys().copied().collect();
+    for k in c_keys.iter().step_by((c_keys.len() / 40).max(1)) {
+        n_q += 2;
+        if !b.has_ckey_entry(&ContentKey::from_bytes(*k)) {
+            bviol("has_ckey_entry", "false-for-present-key", json!({"key": hex::encode(k)}));
+        }
+        let absent = fresh_key(rng, &model.c);
+        if b.has_ckey_entry(&ContentKey::from_bytes(absent)) {
+            bviol("has_ckey_entry", "true-for-absent-key", json!({"key": hex::encode(absent)}));
+        }
+    }
+    for k in e_keys.iter().step_by((e_keys.len() / 40).max(1)) {
+        n_q += 2;
+        if !b.has_ekey_entry(&EncodingKey::from_bytes(*k)) {
+            bviol("has_ekey_entry", "false-for-present-key", json!({"key": hex::encode(k)}));
+        }
+        let absent = fresh_key(rng, &model.e);
+        if b.has_ekey_entry(&EncodingKey::from_bytes(absent)) {
+            bviol("has_ekey_entry", "true-for-absent-key", json!({"key": hex::encode(absent)}));
+        }
+    }
+    // ---- removals (first / last key of the table, a random share), absent keys must report false
+    let mut removed_c: Vec<K> = Vec::new();
+    let mut removed_e: Vec<K> = Vec::new();
+    let share = [0u64, 8, 4, 2][rng.usize_below(4)];
+    let pick_removals = |rng: &mut Rng, keys: &[K]| -> Vec<K> {
+        let mut v: Vec<K> = Vec::new();
+        if share == 0 || keys.is_empty() {
+            return v;
+        }
+        if rng.bool() {
+            v.push(keys[0]);
+        }
+        if rng.bool() {
+            v.push(keys[keys.len() - 1]);
+        }
+        for k in keys {
+            if rng.chance(1, share) {
+                v.push(*k);
+            }
+        }
+        v.sort_unstable();
+        v.dedup();
+        rng.shuffle(&mut v);
+        v
+    };
+    for k in pick_removals(rng, &c_keys) {
+        let r = b.remove_ckey_entry(&ContentKey::from_bytes(k));
+        model.c.remove(&k);
+        removed_c.push(k);
+        if !r {
+            bviol("remove_ckey_entry", "returns-false-for-present-key", json!({"key": hex::encode(k)}));
+        }
+    }
+    for k in pick_removals(rng, &e_keys) {
+        let r = b.remove_ekey_entry(&EncodingKey::from_bytes(k));
+        model.e.remove(&k);
+        order.retain(|o| *o != k);
+        removed_e.push(k);
+        if !r {
+            bviol("remove_ekey_entry", "returns-false-for-present-key", json!({"key": hex::encode(k)}));
+        }
+    }
+    for _ in 0..4 {
+        let a = fresh_key(rng, &model.c);
+        if b.remove_ckey_entry(&ContentKey::from_bytes(a)) {
+            bviol("remove_ckey_entry", "returns-true-for-absent-key", json!({"key": hex::encode(a)}));
+        }
+        let a = fresh_key(rng, &model.e);
+        if b.remove_ekey_entry(&EncodingKey::from_bytes(a)) {
+            bviol("remove_ekey_entry", "returns-true-for-absent-key", json!({"key": hex::encode(a)}));
+        }
+    }
+    // a removed key is removed again: nothing is left to remove
+    if let Some(k) = removed_c.first() {
+        if b.remove_ckey_entry(&ContentKey::from_bytes(*k)) {
+            bviol("remove_ckey_entry", "returns-true-for-absent-key", json!({"key": hex::encode(k), "note": "second removal of the same key"}));
+        }
+    }
+    // ---- replacements: remove + add with a new value
+    let mut replaced = 0u64;
+    let survivors_c: Vec<K> = model.c.keys().copied().collect();
+    for k in &survivors_c {
+        if rng.chance(1, 8) {
+            let nv = new_ckey_value(rng);
+            if !b.remove_ckey_entry(&ContentKey::from_bytes(*k)) {
+                bviol("remove_ckey_entry", "returns-false-for-present-key", json!({"key": hex::encode(k)}));
+            }
+            b.add_ckey_entry(ckey_data(k, &nv));
+            model.c.insert(*k, nv);
+            replaced += 1;
+        }
+    }
+    let mut spec_pool: Vec<String> = specs.iter().map(|s| (*s).to_string()).collect();
+    spec_pool.push("b:{1K*=n}".to_string()); // a string the original ESpec table may not hold
+    let survivors_e: Vec<K> = model.e.keys().copied().collect();
+    for k in &survivors_e {
+        if rng.chance(1, 8) {
+            let nv = (rng.pick(&spec_pool).clone(), size40(rng));
+            if !b.remove_ekey_entry(&EncodingKey::from_bytes(*k)) {
+                bviol("remove_ekey_entry", "returns-false-for-present-key", json!({"key": hex::encode(k)}));
+            }
+            order.retain(|o| o != k);
+            b.add_ekey_entry(ekey_data(k, &nv));
+            order.push(*k);
+            model.e.insert(*k, nv);
+            replaced += 1;
+        }
+    }
+    // ---- additions (neighbours of present keys, small keys, random keys); sometimes a removed key comes back
+    let adds_c = match rng.below(4) {
+        0 => 0,
+        1 => rng.urange(1, 3),
+        2 => rng.urange(4, 40),
+        _ => rng.urange(40, 120),
+    };
+    for i in 0..adds_c {
+        let k = if i == 0 && !removed_c.is_empty() && rng.bool() { removed_c[0] } else { fresh_key(rng, &model.c) };
+        if model.c.contains_key(&k) {
+            continue;
+        }
+        let nv = new_ckey_value(rng);
+        b.add_ckey_entry(ckey_data(&k, &nv));
+        model.c.insert(k, nv);
+    }
+    let adds_e = match rng.below(4) {
+        0 => 0,
+        1 => rng.urange(1, 3),
+        2 => rng.urange(4, 40),
+        _ => rng.urange(40, 200),
+    };
+    for i in 0..adds_e {
+        let k = if i == 0 && !removed_e.is_empty() && rng.bool() { removed_e[0] } else { fresh_key(rng, &model.e) };
+        if model.e.contains_key(&k) {
+            continue;
+        }
+        let nv = (rng.pick(&spec_pool).clone(), size40(rng));
+        b.add_ekey_entry(ekey_data(&k, &nv));
+        order.push(k);
+        model.e.insert(k, nv);
+    }
+    // ---- the builder must hold exactly the edited model
+    if b.ckey_count() != model.c.len() || b.ekey_count() != model.e.len() {
+        bviol("ckey_count/ekey_count", "!=model-after-edits", json!({"ckey_count": b.ckey_count(), "ekey_count": b.ekey_count(), "expected": [model.c.len(), model.e.len()]}));
+    }
+    for k in removed_c.iter().take(40) {
+        n_q += 1;
+        if b.has_ckey_entry(&ContentKey::from_bytes(*k)) != model.c.contains_key(k) {
+            bviol("has_ckey_entry", "!=model-after-remove", json!({"key": hex::encode(k), "in_model": model.c.contains_key(k)}));
+        }
+    }
+    for k in removed_e.iter().take(40) {
+        n_q += 1;
+        if b.has_ekey_entry(&EncodingKey::from_bytes(*k)) != model.e.contains_key(k) {
+            bviol("has_ekey_entry", "!=model-after-remove", json!({"key": hex::encode(k), "in_model": model.e.contains_key(k)}));
+        }
+    }
+    t.o("encoding.edit.presence_queries", n_q);
+    t.o("encoding.edit.removed", (removed_c.len() + removed_e.len()) as u64);
+    t.o("encoding.edit.replaced", replaced);
+    t.o("encoding.edit.added", (adds_c + adds_e) as u64);
+    if rng.chance(1, 3) {
+        b = b.with_trailing_espec(EncodingBuilder::generate_trailing_espec(parsed));
+        t.o("encoding.edit.generated_trailing_espec", 1);
+    }
+    let zero_ekey_espec0 = order.first().is_some_and(|first| model.e.get(&[0u8; 16]).is_some_and(|(s, _)| *s == model.e[first].0));
+    let built = match b.build() {
+        Ok(f) => f,
+        Err(_) => {
+            t.o("encoding.edit.builder_refused", 1);
+            return;
+        }
+    };
+    // ---- serialise and parse through one of the entry-point pairs
+    let reparsed: Result<EncodingFile, String> = match path {
+        0 => built.build().map_err(|e| format!("build:{}", err_class(&e))).and_then(|bytes| EncodingFile::parse(&bytes).map_err(|e| format!("parse-error:{}", err_class(&e)))),
+        1 => built.build_blte().map_err(|e| format!("build:{}", err_class(&e))).and_then(|bytes| EncodingFile::parse_blte(&bytes).map_err(|e| format!("parse-error:{}", err_class(&e)))),
+        _ => <EncodingFile as CascFormat>::build(&built).map_err(|_| "build:Err".to_string()).and_then(|bytes| <EncodingFile as CascFormat>::parse(&bytes).map_err(|_| "parse-error:Err".to_string())),
+    };
+    t.o(&format!("encoding.edit.path.{}", ["build+parse", "build_blte+parse_blte", "CascFormat"][path as usize]), 1);
+    let size_info = json!({"ckeys": model.c.len(), "ekeys": model.e.len(), "ckey_pages": built.ckey_pages.len(), "ekey_pages": built.ekey_pages.len(), "removed": removed_c.len() + removed_e.len(), "replaced": replaced, "start": start});
+    let reparsed = match reparsed {
+        Ok(p) => p,
+        Err(cls) if cls.starts_with("build:") => {
+            t.o("encoding.edit.serialise_refused", 1);
+            return;
+        }
+        Err(cls) => {
+            if model.c.is_empty() {
+                t.o("encoding.empty_table_rejected_by_parser", 1);
+                return;
+            }
+            viol(ctx, case, &format!("C03|encoding|{ph}built-output-misparsed|parse-error"), "the parser rejects the serialised output of an edited EncodingBuilder", json!({"error_class": cls, "sizes": size_info}));
+            return;
+        }
+    };
+    t.o("encoding.edit.structures", 1);
+    if reparsed.ckey_count() != model.c.len() || (reparsed.ekey_count() != model.e.len() && !zero_ekey_espec0) {
+        viol(ctx, case, &format!("C03|encoding|{ph}ckey_count/ekey_count|!=inserted"), "entry counts of the parsed table differ from the number of inserted mappings", json!({"ckey_count": reparsed.ckey_count(), "ekey_count": reparsed.ekey_count(), "sizes": size_info}));
+    }
+    let v = verify(ctx, case, t, rng, &reparsed, &model, ph, zero_ekey_espec0, &size_info);
+    if v.ckeys {
+        // removed keys must be gone (they are also ordinary negative probes of the model, asked explicitly here)
+        let mut gone = 0u64;
+        for k in &removed_c {
+            if !model.c.contains_key(k) {
+                gone += 1;
+                if reparsed.find_encoding(&ContentKey::from_bytes(*k)).is_some() || !reparsed.find_all_encodings(&ContentKey::from_bytes(*k)).is_empty() {
+                    viol(ctx, case, &format!("C03|encoding|{ph}find_encoding|removed-key-found"), "a content key removed with remove_ckey_entry still resolves after rebuild", json!({"key": hex::encode(k), "sizes": size_info}));
+                }
+            }
+        }
+        if v.ekeys {
+            for k in &removed_e {
+                if !model.e.contains_key(k) {
+                    gone += 1;
+                    if reparsed.find_espec(&EncodingKey::from_bytes(*k)).is_some() {
+                        viol(ctx, case, &format!("C03|encoding|{ph}find_espec|removed-key-found"), "an encoding key removed with remove_ekey_entry still resolves after rebuild", json!({"key": hex::encode(k), "sizes": size_info}));
+                    }
+                }
+            }
+        }
+        t.o("encoding.edit.removed_key_probes", gone);
     }
 }
 
